@@ -1,21 +1,20 @@
 /-
-C07 — property theorems: "Secure implies an unbroken chain to a trust anchor".
+C07 — property theorems: "Secure implies an unbroken chain to a trust anchor", about the model
+`Chain.validate` (Model/Chain.lean) of the validator *as repaired* by the fix commits aabfc01, e338561,
+8ec5af8, cdd0f6a, 2bee91e, a0f75fc, 207ce2a.  For every upstream `env.up`, every oracle valuation, every query,
+every fuel (= `request_depth` budget) — so for every hierarchy and every way of tampering with any response.
+All at full strength:
 
-All theorems are about the model `Chain.validate` (Model/Chain.lean), for every upstream `env.up`,
-every oracle valuation, every query, every fuel (= `request_depth` budget) — so in particular for every
-hierarchy and every way of tampering with any response, since the upstream is arbitrary.
-
-  * `secure_implies_chain`      Secure record (not an RRSIG, not a DNSKEY) ⇒ `Chain` (Spec/ChainOfTrust.lean)
-  * `secure_dnskey_implies`     Secure DNSKEY record ⇒ `KeySecure` (trust anchor / DS-covered / in an RRset
-                                signed by such a key)
-  * `secure_dnskey_signed_partial`  … ⇒ `KeySigned` (strict reading: anchor or *signed* RRset), under the
-                                hypothesis that the RRSIG that validated the RRset is marked Secure next to
-                                it; `unsigned_dnskey_rrset_secure` is the kernel-checked counter-example
-                                without it (findings C07.UnsignedDnskeyRrsetSecure / AnchorKeyForeignOwnerSecure)
-  * `no_panic_partial`, `orphan_dnskey_rrsig_panics`        (finding C07.OrphanDnskeyRrsigPanic)
-  * `ds_answer_without_ds_downgrades`                        (finding C07.DsAnswerWithoutDsAccepted)
-  * `insecure_implies_denial_partial`
-  * `ad_only_if_all_secure_partial`, `ad_with_bogus_soa`, `bogus_servfail_unless_cd`, `error_servfail`  (server mapping)
+  * `secure_implies_chain`     Secure record (not an RRSIG, not a DNSKEY) ⇒ `Chain` (Spec/ChainOfTrust.lean)
+  * `secure_dnskey_implies`    Secure DNSKEY ⇒ `KeySecure`
+  * `secure_dnskey_signed`     Secure DNSKEY ⇒ `KeySigned` (trust anchor, or member of a *signed* RRset)
+  * `no_panic`                 the validator never panics
+  * `ok_exits`                 the five ways `verify_response` returns Ok
+  * `insecure_implies_denial`  Insecure ⇒ for the record's owner or an ancestor of it, a validated NSEC/NSEC3 denial
+                               of its DS, or a Secure DS RRset without usable record
+  * `ad_only_if_all_secure`, `bogus_servfail_unless_cd`, `error_servfail`   (server mapping)
+  * `regression_*`: the traces that replayed the ten repaired findings now end in Bogus / error / SERVFAIL
+The open finding C07.AnchorKeyForeignOwnerSecure is inside the spec (`KeySigned`/`DirectKey`: "is a trust anchor").
 -/
 import HickoryVerif.Lemmas.Chain
 
@@ -121,7 +120,7 @@ theorem sound_step {env : Env} (hc : UpClean env) {sub : Query → Res}
     · have hmem : r0 ∈ groupRecs (m0.sec sec) (r0.name, r0.rtype) := by
         unfold groupRecs
         simp [hr0, hnsig0, gkey_of_not_sig hnsig0]
-      exact .direct (keyOk_direct hsub hds rfl (hall r0 hmem))
+      exact .direct (.anchor (hall r0 hmem))
 
 /-- **Induction on the fuel** (the code's `request_depth` budget): every `Ok` result of the validator is `Sound`. -/
 theorem validate_sound {env : Env} (hc : UpClean env) :
@@ -157,27 +156,13 @@ theorem secure_dnskey_implies {env : Env} (hc : UpClean env) {fuel d : Nat} {q :
   have hns : r.isSig = false := by simp [Rec.isSig, hk, tDNSKEY, tRRSIG]
   exact ((hs sec hsec r hr).2 hp hns).2 hk
 
-/-- **C07 for DNSKEY records, strict reading (partial).**  Full statement: a DNSKEY returned Secure is a trust
-anchor or a member of a DNSKEY RRset *signed* by an individually trusted key (`KeySigned`) — false for the
-code as it is (`unsigned_dnskey_rrset_secure`).  Proved under the hypothesis that the validated section shows,
-next to the key, a Secure RRSIG over its RRset (`unsignedSecureDnskeyIn … = false`): then that RRSIG is the
-one that validated the RRset. -/
-theorem secure_dnskey_signed_partial {env : Env} (hc : UpClean env) {fuel d : Nat} {q : Query} {m : Msg}
+/-- **C07 for DNSKEY records, strict reading (full strength).**  A DNSKEY returned Secure is a trust anchor, or a
+member of a DNSKEY RRset *signed* by an individually trusted key of that RRset (`KeySigned`).  (Before fix
+8ec5af8 this needed a hypothesis; the counter-example of then is `regression_unsigned_dnskey_rrset` below.) -/
+theorem secure_dnskey_signed {env : Env} (hc : UpClean env) {fuel d : Nat} {q : Query} {m : Msg}
     (h : validate env fuel d q = .ok m) {sec : Nat} (hsec : sec < 3) {r : Rec} (hr : r ∈ m.sec sec)
-    (hp : r.proof = .secure) (hk : r.rtype = tDNSKEY) (hsig : unsignedSecureDnskeyIn (m.sec sec) = false) :
+    (hp : r.proof = .secure) (hk : r.rtype = tDNSKEY) :
     KeySigned env q sec r.raw := by
-  -- a Secure RRSIG over the key's RRset sits in the validated section
-  have hex : ∃ s ∈ m.sec sec, s.isSig = true ∧ s.covered = tDNSKEY ∧ s.name = r.name ∧ s.proof = .secure := by
-    unfold unsignedSecureDnskeyIn at hsig
-    have hr' := (List.any_eq_false.mp hsig) r hr
-    have hinner : ((m.sec sec).any fun s => s.isSig && s.covered == tDNSKEY && s.name == r.name && s.proof == .secure) = true := by
-      cases hx : ((m.sec sec).any fun s => s.isSig && s.covered == tDNSKEY && s.name == r.name && s.proof == .secure) with
-      | true => rfl
-      | false => simp [hk, hp, hx] at hr'
-    obtain ⟨s, hs, hcond⟩ := List.any_eq_true.mp hinner
-    simp only [Bool.and_eq_true, beq_iff_eq] at hcond
-    exact ⟨s, hs, hcond.1.1.1, hcond.1.1.2, hcond.1.2, hcond.2⟩
-  obtain ⟨s, hs, hss, hsc, hsn, hsp⟩ := hex
   cases fuel with
   | zero => simp [validate] at h
   | succ n =>
@@ -193,27 +178,13 @@ theorem secure_dnskey_signed_partial {env : Env} (hc : UpClean env) {fuel d : Na
       | 0, _ => rfl
       | 1, _ => rfl
       | 2, _ => rfl
-    rw [hrel] at hr hs
+    rw [hrel] at hr
     obtain ⟨i, r0, hr0, hrr⟩ := relabel_mem _ _ _ hr
-    obtain ⟨j, s0, hs0, hsr⟩ := relabel_mem _ _ _ hs
     have hind : r0.proof = .indet := upMsg_clean hc hup sec r0 hr0
-    have hinds : s0.proof = .indet := upMsg_clean hc hup sec s0 hs0
     have hraw : r.raw = r0 := by rw [hrr, relabelOne_raw, raw_of_indet _ hind]
-    have hraws : s.raw = s0 := by rw [hsr, relabelOne_raw, raw_of_indet _ hinds]
     have hnsig0 : r0.isSig = false := by rw [← hraw]; simp [Rec.isSig, hk, tDNSKEY, tRRSIG]
-    have hss0 : s0.isSig = true := by rw [← hraws]; simpa [Rec.isSig] using hss
     have hk0 : r0.rtype = tDNSKEY := by rw [← hraw]; exact hk
     obtain ⟨idx, hl⟩ := relabelOne_secure _ _ i r0 (by simp [hind]) (hrr ▸ hp)
-    obtain ⟨jj, hls⟩ := relabelOne_proof_sig _ _ j s0 .secure hss0 (by simp [hinds]) (hsr ▸ hsp)
-    -- both lookups hit the same RRset
-    have hkey : s0.gkey = r0.gkey := by
-      rw [gkey_of_not_sig hnsig0]
-      have h1 : s0.name = r0.name := by rw [← hraws, ← hraw]; exact hsn
-      have h2 : s0.covered = tDNSKEY := by rw [← hraws]; exact hsc
-      simp [Rec.gkey, Rec.gtype, hss0, h1, h2, hk0]
-    rw [hkey, hl] at hls
-    injection hls with hls
-    injection hls with _ hidx
     obtain ⟨hv, _⟩ := verdicts_lookup _ _ _ _ _ _ _ _ _ hl
     rw [gkey_of_not_sig hnsig0] at hv
     unfold verifyGroup at hv
@@ -221,14 +192,16 @@ theorem secure_dnskey_signed_partial {env : Env} (hc : UpClean env) {fuel d : Na
     rw [if_pos (by simpa using hk0)] at hv
     obtain ⟨ds, hds, hcase⟩ := verifyDnskeyRrset_secure _ _ _ _ _ _ hv.symm
     rw [hraw]
-    rcases hcase with ⟨jx, sig, k', _, hsj, hk', hok, hname, hres⟩ | ⟨hnone, _, _⟩
+    rcases hcase with ⟨jx, sig, k', _, hsj, hk', hok, hname, hres⟩ | ⟨_, _, hall⟩
     · obtain ⟨hs1, hs2, hs3, hs4⟩ := mem_groupSigs (List.mem_of_getElem? hsj)
       obtain ⟨hk1, _, hk3, hk4⟩ := mem_groupRecs hk'
       have hdir : DirectKey env k' := keyOk_direct hsub hds hk3 hok
       exact Or.inr ⟨k', sig, _, m0, hup, hk1, by simpa using hk4.trans hk0, hk3, hdir, hs1, hs2, hs3,
         by simpa using hs4.trans hk0, hname, by simpa [hk0] using hres⟩
-    · rw [hnone] at hidx
-      simp at hidx
+    · have hmem : r0 ∈ groupRecs (m0.sec sec) (r0.name, r0.rtype) := by
+        unfold groupRecs
+        simp [hr0, hnsig0, gkey_of_not_sig hnsig0]
+      exact Or.inl (hall r0 hmem)
 
 /-- a returned record is a record of the upstream's response (nothing is invented; only proofs change) -/
 theorem returned_records_from_upstream {env : Env} (hc : UpClean env) {fuel d : Nat} {q : Query} {m : Msg}
@@ -237,83 +210,59 @@ theorem returned_records_from_upstream {env : Env} (hc : UpClean env) {fuel d : 
   obtain ⟨m0, hup, hs⟩ := validate_sound hc fuel d q m h
   exact ⟨m0, hup, (hs sec hsec r hr).1⟩
 
-/-! ## Insecure -/
+/-! ## the exits of `verify_response` -/
 
-/-- What the induction for Insecure carries: some validated DS lookup (at some depth) came back without a
-Secure DS record of supported algorithm and digest type. -/
-def DsWithoutSecureSupported (env : Env) : Prop :=
-  ∃ fuel d zone md, validate env fuel d ⟨zone, tDS⟩ = .ok md ∧ NoSecureSupportedDs md
+/-- exit 2 for the response to `q`: the NSEC/NSEC3 oracle says Secure on the denial records selected from owners
+that have a Secure record -/
+def NsecDenied (env : Env) (q : Query) (m' : Msg) : Prop :=
+  ∃ mask, (mask = maskOf (selectDenial m'.ns tNSEC3) ∨ mask = maskOf (selectDenial m'.ns tNSEC)) ∧
+    (selectDenial m'.ns tNSEC3 ≠ [] ∨ selectDenial m'.ns tNSEC ≠ []) ∧
+    env.nsec (env.up q).qid mask (maskOf (m'.an.zipIdx.filter fun ri => ri.1.isSig && ri.1.proof == .secure)) = .secure
 
-theorem insecure_step {env : Env} (hc : UpClean env) {sub : Query → Res}
-    (hsubv : ∃ fuel d, sub = validate env fuel d)
-    (hsub : ∀ q m, sub q = .ok m → ∀ sec, sec < 3 → ∀ r ∈ m.sec sec, r.proof = .insecure →
-      DsWithoutSecureSupported env)
-    {d : Nat} {q : Query} {m : Msg} (h : verifyResponse env sub d q (env.up q) = .ok m)
-    {sec : Nat} (hsec : sec < 3) {r : Rec} (hr : r ∈ m.sec sec) (hp : r.proof = .insecure) :
-    DsWithoutSecureSupported env := by
-  obtain ⟨fuel', d', hsubeq⟩ := hsubv
-  obtain ⟨m0, hup, hm⟩ := verifyResponse_ok _ _ _ _ _ h
-  have hm' := verifyMsg_ok _ _ _ _ _ _ _ hm
-  have hrel : m.sec sec = relabel (m0.sec sec) (verdicts env sub d q (env.up q).qid sec (m0.sec sec)) := by
-    subst hm'
-    match sec, hsec with
-    | 0, _ => rfl
-    | 1, _ => rfl
-    | 2, _ => rfl
-  rw [hrel] at hr
-  obtain ⟨i, r0, hr0, hrr⟩ := relabel_mem _ _ _ hr
-  have hind : r0.proof = .indet := upMsg_clean hc hup sec r0 hr0
-  obtain ⟨idx, hl⟩ := relabelOne_proof _ _ i r0 .insecure (by simp [hind]) (hrr ▸ hp)
-  obtain ⟨hv, _⟩ := verdicts_lookup _ _ _ _ _ _ _ _ _ hl
-  unfold verifyGroup at hv
-  dsimp only at hv
-  split at hv
-  · obtain ⟨md, hmd, hno⟩ := verifyDnskeyRrset_insecure _ _ _ _ _ _ hv.symm
-    exact ⟨fuel', d', _, md, hsubeq ▸ hmd, hno⟩
-  · rcases verifyDefaultRrset_insecure _ _ _ _ _ _ hv.symm with ⟨zone, md, hmd, hno⟩ | ⟨s, mk, k, hmk, hk, hkp⟩
-    · exact ⟨fuel', d', zone, md, hsubeq ▸ hmd, hno⟩
-    · exact hsub _ _ hmk 0 (by omega) k (by simpa [Msg.sec] using hk) hkp
+/-- the name whose zone must be provably insecure: the query name, for a DS query its parent -/
+def dsNameOf (q : Query) : DName := if q.qtype == tDS then q.name.baseName else q.name
 
-/-- **Insecure only with a DS lookup that found no usable DS** (proved part of `insecure_implies_denial`).
-If the validator returns any record with proof Insecure, then for some zone the *validated* response to its
-DS query — obtained by the validator itself at some depth — contains no Secure DS record with a supported
-algorithm and digest type: either no DS at all among its answers, or only unsupported ones, or supported
-ones that did not validate.  By induction on the fuel. -/
-theorem insecure_implies_ds_without_secure_supported {env : Env} (hc : UpClean env) :
-    ∀ (fuel d : Nat) (q : Query) (m : Msg), validate env fuel d q = .ok m →
-      ∀ sec, sec < 3 → ∀ r ∈ m.sec sec, r.proof = .insecure → DsWithoutSecureSupported env := by
-  intro fuel
-  induction fuel with
-  | zero => intro d q m h; simp [validate] at h
-  | succ n ih =>
-    intro d q m h sec hsec r hr hp
-    unfold validate at h
-    exact insecure_step hc ⟨n, d + 1, rfl⟩ (fun q' m' h' => ih (d + 1) q' m' h') h hsec hr hp
-
-/-- **The exits of `verify_response`** (one-step): a response is returned `Ok` only if (1) its verified
-authority RRsets are Insecure throughout, or (2) the NSEC/NSEC3 oracle says Secure on the denial records
-selected from Secure owners, or (3) there are no such records, no wildcard answer, and the answer section
-is not empty, or (4) likewise with an empty answer section and `find_ds_records` proving the name insecure.
-Exit (3) is taken whatever the answers are — the root of finding `C07.DsAnswerWithoutDsAccepted`. -/
-theorem ok_exits (env : Env) (sub : Query → Res) (d : Nat) (q : Query) (qid : Nat) (m m' : Msg)
-    (h : verifyMsg env sub d q qid m = .ok m') :
-    allAuthInsecure m'.ns (verdicts env sub d q qid 1 m.ns) = true ∨
-    (∃ mask, (mask = maskOf (selectDenial m'.ns tNSEC3) ∨ mask = maskOf (selectDenial m'.ns tNSEC)) ∧
-      (selectDenial m'.ns tNSEC3 ≠ [] ∨ selectDenial m'.ns tNSEC ≠ []) ∧
-      env.nsec qid mask (maskOf (m'.an.zipIdx.filter fun ri => ri.1.isSig && ri.1.proof == .secure)) = .secure) ∨
-    (selectDenial m'.ns tNSEC3 = [] ∧ selectDenial m'.ns tNSEC = [] ∧ m'.an ≠ []) ∨
-    (m'.an = [] ∧ findDs env sub (if q.qtype == tDS then q.name.baseName else q.name) = .err .insecure) := by
+/-- **The exits of `verify_response`** (after fixes 2bee91e, a0f75fc): a response is returned `Ok` only if
+(1) its verified authority RRsets are Insecure throughout *and* `find_ds_records` proves the query name insecure,
+(2) it is a plain positive answer: NOERROR, no wildcard expansion, a record of the query name and type in the
+    answer section (denial records attached to it are then not evaluated),
+(3) the NSEC/NSEC3 oracle says Secure on the denial records selected from Secure owners,
+(4) there are no such records, no wildcard answer, and the answer section answers the question (a record of the
+    queried type, or a CNAME, at the query name), or
+(5) the answer section does not answer the question and `find_ds_records` proves the query name insecure. -/
+theorem ok_exits (env : Env) (sub : Query → Res) (d : Nat) (q : Query) (m m' : Msg)
+    (h : verifyMsg env sub d q (env.up q).qid m = .ok m') :
+    (allAuthInsecure m'.ns (verdicts env sub d q (env.up q).qid 1 m.ns) = true ∧
+      findDs env sub (dsNameOf q) = .err .insecure) ∨
+    (m'.rcode = 0 ∧ plainAnswer q m'.an = true) ∨
+    NsecDenied env q m' ∨
+    (selectDenial m'.ns tNSEC3 = [] ∧ selectDenial m'.ns tNSEC = [] ∧ answersTheQuestion q m'.an = true) ∨
+    (answersTheQuestion q m'.an = false ∧ findDs env sub (dsNameOf q) = .err .insecure) := by
   have hm' := verifyMsg_ok _ _ _ _ _ _ _ h
   subst hm'
+  unfold NsecDenied dsNameOf
   dsimp only
   unfold verifyMsg at h
   dsimp only at h
   split at h
   · simp at h
   · split at h
-    · rename_i hall
-      exact Or.inl hall
+    · rename_i r hearly
+      left
+      split at hearly
+      · rename_i hall
+        split at hearly
+        · injection hearly with hearly; subst hearly; simp at h
+        · rename_i hf; exact ⟨hall, hf⟩
+        · simp at hearly
+      · simp at hearly
     · right
+      split at h
+      · rename_i hpos
+        left
+        simp only [Bool.and_eq_true, beq_iff_eq] at hpos
+        exact ⟨hpos.1.2, hpos.2⟩
+      right
       split at h
       · rename_i _ h3 h1
         split at h
@@ -336,7 +285,7 @@ theorem ok_exits (env : Env) (sub : Query → Res) (d : Nat) (q : Query) (qid : 
         split at h
         · rename_i hne
           left
-          exact ⟨by simpa using h3, by simpa using h1, by simpa using hne⟩
+          exact ⟨by simpa using h3, by simpa using h1, hne⟩
         · rename_i hne
           right
           refine ⟨by simpa using hne, ?_⟩
@@ -345,57 +294,26 @@ theorem ok_exits (env : Env) (sub : Query → Res) (d : Nat) (q : Query) (qid : 
           · rename_i hf; exact hf
           · simp at h
 
-/-! ## Insecure ⇒ a validated denial of DS, or only unsupported DS (partial) -/
+/-! ## Insecure ⇒ a validated denial of DS, or only unsupported DS -/
 
-/-- exit 2 of `ok_exits` for the response to `q`: the NSEC/NSEC3 oracle says Secure on the denial records
-selected from owners that have a Secure record -/
-def NsecDenied (env : Env) (q : Query) (m' : Msg) : Prop :=
-  ∃ mask, (mask = maskOf (selectDenial m'.ns tNSEC3) ∨ mask = maskOf (selectDenial m'.ns tNSEC)) ∧
-    (selectDenial m'.ns tNSEC3 ≠ [] ∨ selectDenial m'.ns tNSEC ≠ []) ∧
-    env.nsec (env.up q).qid mask (maskOf (m'.an.zipIdx.filter fun ri => ri.1.isSig && ri.1.proof == .secure)) = .secure
-
-/-- The two reasons the property admits: for some zone the validator obtained a validated DS response that is
-(a) a negative answer proved by NSEC/NSEC3, or (b) a Secure DS RRset without a Secure record of supported
-algorithm and digest type. -/
-def Justified (env : Env) : Prop :=
-  ∃ fuel d zone md, validate env fuel d ⟨zone, tDS⟩ = .ok md ∧
+/-- The two reasons the property admits, at `zone`: the validator obtained (at some depth) a validated response
+to `zone DS` that is (a) a negative answer proved by NSEC/NSEC3, or (b) a Secure DS RRset without a Secure record
+of supported algorithm and digest type. -/
+def DsDenied (env : Env) (zone : DName) : Prop :=
+  ∃ fuel d md, validate env fuel d ⟨zone, tDS⟩ = .ok md ∧
     ((md.an = [] ∧ NsecDenied env ⟨zone, tDS⟩ md) ∨
      ((∃ x ∈ md.an, x.rtype = tDS ∧ x.proof = .secure) ∧ NoSecureSupportedDs md))
 
-/-- hypothesis excluding finding `C07.DsAnswerWithoutDsAccepted`: a DS response of the upstream with a non-empty
-answer section has a DS record in it (on a trace: `dsAnswerWithoutDs trace = false`) -/
-def DsAnswersHaveDs (env : Env) : Prop :=
-  ∀ zone qid m, upMsg env ⟨zone, tDS⟩ = some (qid, m) → m.an ≠ [] → ∃ x ∈ m.an, x.rtype = tDS
-
-theorem validated_ds_answers {env : Env} (hH : DsAnswersHaveDs env) {fuel d : Nat} {zone : DName} {md : Msg}
-    (h : validate env fuel d ⟨zone, tDS⟩ = .ok md) (hno : ∀ x ∈ md.an, x.rtype ≠ tDS) : md.an = [] := by
-  cases fuel with
-  | zero => simp [validate] at h
-  | succ n =>
-    unfold validate at h
-    obtain ⟨m0, hup, hm⟩ := verifyResponse_ok _ _ _ _ _ h
-    have hm' := verifyMsg_ok _ _ _ _ _ _ _ hm
-    have han : md.an = relabel m0.an (verdicts env (validate env n (d + 1)) (d + 1) ⟨zone, tDS⟩
-        (env.up ⟨zone, tDS⟩).qid 0 m0.an) := by rw [hm']
-    cases h0 : m0.an with
-    | nil => rw [han, h0]; rfl
-    | cons y ys =>
-      exfalso
-      obtain ⟨x, hx, ht⟩ := hH zone _ m0 hup (by simp [h0])
-      obtain ⟨i, hi⟩ := mem_relabel_of_mem m0.an
-        (verdicts env (validate env n (d + 1)) (d + 1) ⟨zone, tDS⟩ (env.up ⟨zone, tDS⟩).qid 0 m0.an) x hx
-      rw [← han] at hi
-      exact hno _ hi ((relabelOne_gkey _ _ i x).2.2.trans ht)
-
-theorem denial_step {env : Env} (hc : UpClean env) (hH : DsAnswersHaveDs env) (n : Nat)
-    (ihI : ∀ d q m, validate env n d q = .ok m → ∀ sec, sec < 3 → ∀ r ∈ m.sec sec, r.proof = .insecure → Justified env)
-    (ihJ : ∀ d zone, fetchDs (validate env n d) zone = .err .insecure → Justified env) :
+theorem denial_step {env : Env} (hc : UpClean env) (n : Nat)
+    (ihI : ∀ d q m, validate env n d q = .ok m → ∀ sec, sec < 3 → ∀ r ∈ m.sec sec, r.proof = .insecure →
+      ∃ zone, zone <:+ r.name ∧ DsDenied env zone)
+    (ihJ : ∀ d zone, fetchDs (validate env n d) zone = .err .insecure → ∃ zone', zone' <:+ zone ∧ DsDenied env zone') :
     (∀ d q m, validate env (n + 1) d q = .ok m → ∀ sec, sec < 3 → ∀ r ∈ m.sec sec, r.proof = .insecure →
-      Justified env) ∧
-    (∀ d zone, fetchDs (validate env (n + 1) d) zone = .err .insecure → Justified env) := by
-  -- I(n+1)
-  have hI : ∀ d q m, validate env (n + 1) d q = .ok m → ∀ sec, sec < 3 → ∀ r ∈ m.sec sec,
-      r.proof = .insecure → Justified env := by
+      ∃ zone, zone <:+ r.name ∧ DsDenied env zone) ∧
+    (∀ d zone, fetchDs (validate env (n + 1) d) zone = .err .insecure →
+      ∃ zone', zone' <:+ zone ∧ DsDenied env zone') := by
+  constructor
+  · -- records of a response validated with n+1 levels left
     intro d q m h sec hsec r hr hp
     unfold validate at h
     obtain ⟨m0, hup, hm⟩ := verifyResponse_ok _ _ _ _ _ h
@@ -410,96 +328,101 @@ theorem denial_step {env : Env} (hc : UpClean env) (hH : DsAnswersHaveDs env) (n
     rw [hrel] at hr
     obtain ⟨i, r0, hr0, hrr⟩ := relabel_mem _ _ _ hr
     have hind : r0.proof = .indet := upMsg_clean hc hup sec r0 hr0
+    have hname : r.name = r0.name := by
+      have := relabelOne_raw (m0.sec sec)
+        (verdicts env (validate env n (d + 1)) (d + 1) q (env.up q).qid sec (m0.sec sec)) i r0
+      rw [← hrr] at this
+      have h2 : r.raw.name = r0.raw.name := by rw [this]
+      simpa using h2
     obtain ⟨idx, hl⟩ := relabelOne_proof _ _ i r0 .insecure (by simp [hind]) (hrr ▸ hp)
     obtain ⟨hv, _⟩ := verdicts_lookup _ _ _ _ _ _ _ _ _ hl
     unfold verifyGroup at hv
     dsimp only at hv
+    have hgn : r0.gkey.1 = r0.name := rfl
+    rw [hname]
     split at hv
     · rcases verifyDnskeyRrset_insecure_cases _ _ _ _ _ _ hv.symm with hf | ⟨md, hmd, hx, hno⟩
       · exact ihJ _ _ hf
-      · exact ⟨n, d + 1, _, md, hmd, Or.inr ⟨hx, hno⟩⟩
-    · rcases verifyDefaultRrset_insecure_cases _ _ _ _ _ _ hv.symm with ⟨zone, hf⟩ | ⟨s, mk, k, hmk, hk, hkp⟩
-      · exact ihJ _ _ hf
-      · exact ihI _ _ _ hmk 0 (by omega) k (by simpa [Msg.sec] using hk) hkp
-  refine ⟨hI, ?_⟩
-  -- J(n+1)
-  intro d zone hf
-  obtain ⟨md, hmd, hno, hcase⟩ := fetchDs_insecure_cases _ _ hf
-  rcases hcase with hx | hnods
-  · exact ⟨n + 1, d, zone, md, hmd, Or.inr ⟨hx, hno⟩⟩
-  · have hempty : md.an = [] := validated_ds_answers hH hmd hnods
-    have hmd' := hmd
-    unfold validate at hmd'
-    obtain ⟨m0, hup, hm⟩ := verifyResponse_ok _ _ _ _ _ hmd'
-    have hmeq := verifyMsg_ok _ _ _ _ _ _ _ hm
-    rcases ok_exits _ _ _ _ _ _ _ hm with h1 | h2 | h3 | h4
-    · -- all authorities Insecure: an Insecure record in the validated authority section
-      have hns : md.ns = relabel m0.ns (verdicts env (validate env n (d + 1)) (d + 1) ⟨zone, tDS⟩
-          (env.up ⟨zone, tDS⟩).qid 1 m0.ns) := by rw [hmeq]
-      rw [hns] at h1
-      obtain ⟨x, hx, hxp⟩ := allAuthInsecure_exists _ _ _ _ _ _ h1
-      rw [← hns] at hx
-      exact hI d _ md hmd 1 (by omega) x (by simpa [Msg.sec] using hx) hxp
-    · exact ⟨n + 1, d, zone, md, hmd, Or.inl ⟨hempty, h2⟩⟩
-    · exact absurd hempty h3.2.2
-    · obtain ⟨zone', hf'⟩ := findDs_insecure _ _ _ h4.2
-      exact ihJ _ _ hf'
+      · exact ⟨r0.name, List.suffix_refl _, n, d + 1, md, hmd, Or.inr ⟨hx, hno⟩⟩
+    · rcases verifyDefaultRrset_insecure_suffix _ _ _ _ _ _ hv.symm with
+        ⟨zone, hz, hf⟩ | ⟨s, mk, k, _, hsig, hmk, hk, _, hkn, hkp⟩
+      · obtain ⟨zone', hz', hd⟩ := ihJ _ _ hf
+        exact ⟨zone', hz'.trans hz, hd⟩
+      · -- inherited from an Insecure DNSKEY, owned by the signer, of the answer to "<signer> DNSKEY";
+        -- the signer is the owner or an ancestor of the owner (fix 207ce2a)
+        obtain ⟨zone, hz, hd⟩ := ihI _ _ _ hmk 0 (by omega) k (by simpa [Msg.sec] using hk) hkp
+        exact ⟨zone, (hz.trans (hkn ▸ List.suffix_refl _)).trans hsig, hd⟩
+  · -- the DS lookup with n+1 levels left
+    intro d zone hf
+    obtain ⟨md, hmd, hno, hcase⟩ := fetchDs_insecure_cases _ _ hf
+    rcases hcase with hx | hempty
+    · exact ⟨zone, List.suffix_refl _, n + 1, d, md, hmd, Or.inr ⟨hx, hno⟩⟩
+    · have hmd' := hmd
+      unfold validate at hmd'
+      obtain ⟨m0, hup, hm⟩ := verifyResponse_ok _ _ _ _ _ hmd'
+      have hds : dsNameOf ⟨zone, tDS⟩ = DName.baseName zone := by simp [dsNameOf]
+      rcases ok_exits _ _ _ _ _ _ hm with h1 | h2 | h3 | h4 | h5
+      · rw [hds] at h1
+        obtain ⟨z2, hz2, hf2⟩ := findDs_insecure_suffix _ _ _ h1.2
+        obtain ⟨zone', hz', hd⟩ := ihJ _ _ hf2
+        exact ⟨zone', (hz'.trans hz2).trans (baseName_suffix _), hd⟩
+      · rw [hempty] at h2
+        simp [plainAnswer] at h2
+      · exact ⟨zone, List.suffix_refl _, n + 1, d, md, hmd, Or.inl ⟨hempty, h3⟩⟩
+      · rw [hempty] at h4
+        simp [answersTheQuestion] at h4
+      · rw [hds] at h5
+        obtain ⟨z2, hz2, hf2⟩ := findDs_insecure_suffix _ _ _ h5.2
+        obtain ⟨zone', hz', hd⟩ := ihJ _ _ hf2
+        exact ⟨zone', (hz'.trans hz2).trans (baseName_suffix _), hd⟩
 
-/-- **Insecure ⇒ denial (partial).**  Full statement (`insecure_implies_denial`): a record is returned Insecure
-only if, for a zone cut *above the record*, the DS query returned no DS with a Secure denial, or only
-unsupported algorithms.  For the code as it is that is false twice over: without `DsAnswersHaveDs` any DS
-answer without a DS downgrades (`ds_answer_without_ds_downgrades`), and the zone need not be related to the
-record (`insecure_authority_accepts_denial`).  Proved, by induction on the fuel, under `DsAnswersHaveDs`:
-an Insecure record implies that for *some* zone the validator holds a validated DS response that is an
-NSEC/NSEC3-proved negative answer or a Secure DS RRset without a usable record (`Justified`). -/
-theorem insecure_implies_denial_partial {env : Env} (hc : UpClean env) (hH : DsAnswersHaveDs env) :
-    ∀ (fuel d : Nat) (q : Query) (m : Msg), validate env fuel d q = .ok m →
-      ∀ sec, sec < 3 → ∀ r ∈ m.sec sec, r.proof = .insecure → Justified env := by
-  have key : ∀ n : Nat,
-      (∀ d q m, validate env n d q = .ok m → ∀ sec, sec < 3 → ∀ r ∈ m.sec sec, r.proof = .insecure →
-        Justified env) ∧
-      (∀ d zone, fetchDs (validate env n d) zone = .err .insecure → Justified env) := by
-    intro n
-    induction n with
-    | zero =>
-      refine ⟨fun d q m h => by simp [validate] at h, fun d zone hf => ?_⟩
-      obtain ⟨md, hmd, _⟩ := fetchDs_insecure _ _ hf
-      simp [validate] at hmd
-    | succ n ih => exact denial_step hc hH n ih.1 ih.2
-  intro fuel d q m h
-  exact (key fuel).1 d q m h
+theorem denial_all {env : Env} (hc : UpClean env) : ∀ n : Nat,
+    (∀ d q m, validate env n d q = .ok m → ∀ sec, sec < 3 → ∀ r ∈ m.sec sec, r.proof = .insecure →
+      ∃ zone, zone <:+ r.name ∧ DsDenied env zone) ∧
+    (∀ d zone, fetchDs (validate env n d) zone = .err .insecure → ∃ zone', zone' <:+ zone ∧ DsDenied env zone') := by
+  intro n
+  induction n with
+  | zero =>
+    refine ⟨fun d q m h => by simp [validate] at h, fun d zone hf => ?_⟩
+    obtain ⟨md, hmd, _⟩ := fetchDs_insecure _ _ hf
+    simp [validate] at hmd
+  | succ n ih => exact denial_step hc n ih.1 ih.2
+
+/-- **C07, Insecure ⇒ denial (full strength).**  If the validator returns any record `r` with proof Insecure then,
+for a zone that is `r`'s owner or an ancestor of it (the owner of a DNSKEY, the zone cut `find_ds_records` found,
+or the signer an RRSIG names — which is the owner or an ancestor since fix 207ce2a), it holds a *validated* response
+to that zone's DS query which is a negative answer proved by NSEC/NSEC3, or a Secure DS RRset in which no Secure
+record has a supported algorithm and digest type.  For every upstream, every oracle valuation, every fuel; by
+induction on the fuel, mutually with the same statement for `fetch_ds_records`.  (History: under `DsAnswersHaveDs`
+before aabfc01/2bee91e, under `SignerDiscipline` before 207ce2a; the counter-examples of then are the
+`regression_*` theorems below.) -/
+theorem insecure_implies_denial {env : Env} (hc : UpClean env)
+    {fuel d : Nat} {q : Query} {m : Msg} (h : validate env fuel d q = .ok m) {sec : Nat} (hsec : sec < 3)
+    {r : Rec} (hr : r ∈ m.sec sec) (hp : r.proof = .insecure) :
+    ∃ zone, zone <:+ r.name ∧ DsDenied env zone :=
+  (denial_all hc fuel).1 d q m h sec hsec r hr hp
 
 /-! ## no panic -/
 
-/-- no response of the upstream has an RRSIG covering DNSKEY without a DNSKEY of that owner in its section -/
-def NoOrphan (env : Env) : Prop :=
-  ∀ q qid m, upMsg env q = some (qid, m) → ∀ sec, sec < 3 → orphanDnskeyRrsigIn (m.sec sec) = false
-
 theorem verdicts_no_panic {env : Env} {sub : Query → Res} (hsub : ∀ q, sub q ≠ .abort "panic")
-    {d : Nat} {q : Query} {qid secNo : Nat} {sec : List Rec} (hno : orphanDnskeyRrsigIn sec = false)
+    {d : Nat} {q : Query} {qid secNo : Nat} {sec : List Rec}
     {kv : GKey × GV} (hkv : kv ∈ verdicts env sub d q qid secNo sec) : kv.2 ≠ .abort "panic" := by
   intro hp
-  obtain ⟨hk, hv⟩ := mem_verdicts hkv
+  obtain ⟨_, hv⟩ := mem_verdicts hkv
   rw [hv] at hp
   unfold verifyGroup at hp
   dsimp only at hp
   split at hp
-  · rename_i ht
-    rcases verifyDnskeyRrset_abort _ _ _ _ _ _ hp with ⟨q', hq'⟩ | he
-    · exact hsub q' hq'
-    · have := orphan_of_empty_group hk (by simpa using ht) he
-      rw [hno] at this
-      simp at this
+  · obtain ⟨q', hq'⟩ := verifyDnskeyRrset_abort _ _ _ _ _ _ hp
+    exact hsub q' hq'
   · rcases verifyDefaultRrset_abort _ _ _ _ _ _ hp with hm | ⟨q', hq'⟩
     · revert hm; decide
     · exact hsub q' hq'
 
-/-- **No panic (partial).**  Full statement: `validate env fuel d q ≠ .abort "panic"` for every upstream — false
-for the code as it is (`orphan_dnskey_rrsig_panics`).  Proved under `NoOrphan env`: the only panic site of
-the validator (`dnskey_proofs.pop().unwrap()`) is reached exactly through an RRSIG covering DNSKEY that
-comes without a DNSKEY record. -/
-theorem no_panic_partial {env : Env} (hno : NoOrphan env) :
-    ∀ (fuel d : Nat) (q : Query), validate env fuel d q ≠ .abort "panic" := by
+/-- **No panic (full strength).**  For every upstream, every oracle valuation, every fuel: the validator does not
+panic.  The one `unwrap()` of the validator (`dnskey_proofs.pop().unwrap()`) is unreachable since fix e338561
+(`verifyDnskeyRrset_abort`).  (`abort "missing"` exists only in the driver: a query outside the replayed trace.) -/
+theorem no_panic (env : Env) : ∀ (fuel d : Nat) (q : Query), validate env fuel d q ≠ .abort "panic" := by
   intro fuel
   induction fuel with
   | zero => intro d q; simp [validate]
@@ -507,11 +430,13 @@ theorem no_panic_partial {env : Env} (hno : NoOrphan env) :
     intro d q h
     unfold validate at h
     have hsub : ∀ q', validate env n (d + 1) q' ≠ .abort "panic" := ih (d + 1)
-    -- the message being verified
-    have key : ∀ m0, upMsg env q = some ((env.up q).qid, m0) →
-        verifyMsg env (validate env n (d + 1)) (d + 1) q (env.up q).qid m0 ≠ .abort "panic" := by
-      intro m0 hup hv
-      have hsec := hno q _ m0 hup
+    have hfd : ∀ nm, findDs env (validate env n (d + 1)) nm ≠ .abort "panic" := by
+      intro nm hf
+      rcases findDs_abort _ _ _ _ hf with hm | ⟨q', hq'⟩
+      · revert hm; decide
+      · exact hsub q' hq'
+    have key : ∀ m0, verifyMsg env (validate env n (d + 1)) (d + 1) q (env.up q).qid m0 ≠ .abort "panic" := by
+      intro m0 hv
       unfold verifyMsg at hv
       dsimp only at hv
       split at hv
@@ -521,12 +446,25 @@ theorem no_panic_partial {env : Env} (hno : NoOrphan env) :
         obtain ⟨kv, hkv, hp⟩ := firstAbort_panic hw
         simp only [List.mem_append] at hkv
         rcases hkv with (hkv | hkv) | hkv
-        · exact verdicts_no_panic hsub (by simpa [Msg.sec] using hsec 0 (by omega)) hkv hp
-        · exact verdicts_no_panic hsub (by simpa [Msg.sec] using hsec 1 (by omega)) hkv hp
-        · exact verdicts_no_panic hsub (by simpa [Msg.sec] using hsec 2 (by omega)) hkv hp
+        · exact verdicts_no_panic hsub hkv hp
+        · exact verdicts_no_panic hsub hkv hp
+        · exact verdicts_no_panic hsub hkv hp
       · split at hv
-        · simp at hv
+        · rename_i r hearly
+          split at hearly
+          · split at hearly
+            · rename_i w hf
+              injection hearly with hearly
+              subst hearly
+              injection hv with hv
+              subst hv
+              exact hfd _ hf
+            · injection hearly with hearly; subst hearly; simp at hv
+            · simp at hearly
+          · simp at hearly
         · split at hv
+          · simp at hv
+          split at hv
           · split at hv <;> simp at hv
           · split at hv <;> simp at hv
           · simp at hv
@@ -537,19 +475,15 @@ theorem no_panic_partial {env : Env} (hno : NoOrphan env) :
               · rename_i w hf
                 injection hv with hv
                 subst hv
-                rcases findDs_abort _ _ _ _ hf with hm | ⟨q', hq'⟩
-                · revert hm; decide
-                · exact hsub q' hq'
+                exact hfd _ hf
               · simp at hv
               · simp at hv
     unfold verifyResponse at h
     split at h
     · simp at h
     · revert h; decide
-    · rename_i m hm
-      exact key _ (by unfold upMsg; rw [hm]) h
-    · rename_i m hm
-      exact key _ (by unfold upMsg; rw [hm]) h
+    · exact key _ h
+    · exact key _ h
 
 /-! ## the server's mapping (`build_forwarded_response`) -/
 
@@ -594,11 +528,11 @@ theorem summaryGo_bogus_of_mem (rs : List Rec) (st : Option Bool) (h : ∃ r ∈
       · rfl
       · exact ih _ ⟨r, hx, hp⟩
 
-/-- **AD only if all Secure** (as far as the code goes): the forwarded response carries AD only when the
-validator returned `Ok` and every summarised record — a non-empty list: the answers, or for a negative answer
-with a SOA the authority records *other than the SOA* — is Secure.  The full statement ("every record of the
-forwarded answer / authority section is Secure") fails for the SOA of a negative answer: `ad_with_bogus_soa`. -/
-theorem ad_only_if_all_secure_partial (cd : Bool) (q : Query) (r : Res) (h : (serverView cd q r).2 = true) :
+/-- **AD only if all Secure (full strength).**  The forwarded response carries AD only when the validator returned
+`Ok` and every summarised record is Secure, the summarised records being a non-empty list: the whole answer section
+or, for a negative answer, the whole authority section the server forwards (non-SOA records and the SOA; before fix
+cdd0f6a the SOA was left out and a negative answer without SOA was not looked at). -/
+theorem ad_only_if_all_secure (cd : Bool) (q : Query) (r : Res) (h : (serverView cd q r).2 = true) :
     (∃ m, r = .ok m) ∧ summarised q r ≠ [] ∧ ∀ x ∈ summarised q r, x.proof = .secure := by
   have hok : ∃ m, r = .ok m := by
     cases r with
@@ -615,6 +549,13 @@ theorem ad_only_if_all_secure_partial (cd : Bool) (q : Query) (r : Res) (h : (se
       exact ⟨by simpa using h2, h1⟩
     · split at h <;> simp at h
     · simp at h
+
+/-- what the summary of a negative answer covers: every authority record except SOA records after the first -/
+theorem summarised_noRecords_covers (q : Query) (m : Msg) (hf : forwarded q (.ok m) = .noRecords m)
+    (x : Rec) (hx : x ∈ m.ns) (hns : x.rtype ≠ tSOA) : x ∈ summarised q (.ok m) := by
+  unfold summarised
+  rw [hf]
+  simp [hx, hns]
 
 /-- **Bogus ⇒ SERVFAIL unless CD**: a Bogus record among the summarised ones makes the response SERVFAIL
 (without AD) for a client that did not set CD. -/
@@ -633,28 +574,7 @@ theorem error_servfail (cd : Bool) (q : Query) (r : Res) (hok : ∀ m, r ≠ .ok
   | ok m => exact absurd rfl (hok m)
   | _ => simp [serverView, forwarded]
 
-/-- **Replay of `C07.AdIgnoresSoaProof`** (kernel-checked): a negative answer whose SOA is Bogus (say, its RRSIG
-was stripped) while the NSEC records are Secure is forwarded with AD set and NXDOMAIN, the Bogus SOA included. -/
-theorem ad_with_bogus_soa :
-    let nsec : Rec := { name := ["a", "z"], rtype := 47, rid := 0, proof := .secure }
-    let sig : Rec := { name := ["a", "z"], rtype := 46, rid := 1, covered := 47, signer := ["z"], labels := 2, proof := .secure }
-    let soa : Rec := { name := ["z"], rtype := 6, rid := 2, proof := .bogus }
-    let m : Msg := { rcode := 3, an := [], ns := [nsec, sig, soa], ad := [] }
-    soaOnlyNotSecure m = true ∧ serverView false ⟨["b", "z"], 1⟩ (.ok m) = (3, true) := by
-  decide
-
-/-- **Replay of `C07.BogusNegativeWithoutSoaForwarded`** (kernel-checked): a negative answer without a SOA record
-is forwarded to a CD=0 client with the upstream's NXDOMAIN although it carries a Bogus record (here the orphaned
-RRSIG of the SOA that was taken out). -/
-theorem bogus_negative_without_soa_forwarded :
-    let nsec : Rec := { name := ["a", "z"], rtype := 47, rid := 0, proof := .secure }
-    let sig : Rec := { name := ["a", "z"], rtype := 46, rid := 1, covered := 47, signer := ["z"], labels := 2, proof := .secure }
-    let sigSoa : Rec := { name := ["z"], rtype := 46, rid := 3, covered := 6, signer := ["z"], labels := 1, proof := .bogus }
-    let m : Msg := { rcode := 3, an := [], ns := [nsec, sig, sigSoa], ad := [] }
-    bogusNegativeWithoutSoa m = true ∧ serverView false ⟨["b", "z"], 1⟩ (.ok m) = (3, false) := by
-  decide
-
-/-! ## concrete upstreams: non-vacuity and the kernel-checked replays of the findings -/
+/-! ## concrete upstreams: non-vacuity, regression examples of the repaired findings, replays of the open ones -/
 
 def cleanOut : UpOut → Bool
   | .ok m | .noRecords m => m.all.all (·.proof == .indet)
@@ -722,29 +642,6 @@ theorem upClean_of_up (env : Env) (trace : List (Query × UpOut)) (hup : env.up 
     simp only [cleanOut, List.all_eq_true, beq_iff_eq] at this
     exact this r hr
 
-/-- `DsAnswersHaveDs` for a replayed trace on which the class predicate of `C07.DsAnswerWithoutDsAccepted` is false -/
-theorem dsAnswersHaveDs_of_up (env : Env) (trace : List (Query × UpOut)) (hup : env.up = traceUp trace)
-    (h : dsAnswerWithoutDs trace = false) : DsAnswersHaveDs env := by
-  intro zone qid m hupm hne
-  unfold dsAnswerWithoutDs at h
-  simp only [List.any_eq_false] at h
-  unfold upMsg at hupm
-  rw [hup] at hupm
-  split at hupm
-  · rename_i m' hm
-    obtain ⟨e, he, heq1, heq2⟩ := traceFind_mem' trace 0 _ _ hm (by simp)
-    have := h e he
-    rw [heq1, heq2] at this
-    injection hupm with hupm; injection hupm with _ hupm; subst hupm
-    simp only [tDS, beq_self_eq_true, Bool.true_and, Bool.and_eq_true, Bool.not_eq_true', not_and,
-      Bool.not_eq_false, List.isEmpty_eq_false_iff, ne_eq] at this
-    have hany := this hne
-    simp only [List.any_eq_true, beq_iff_eq] at hany
-    exact hany
-  · rename_i m' hm
-    injection hupm with hupm; injection hupm with _ hupm; subst hupm
-    simp at hne
-  · simp at hupm
 
 namespace Ex
 /-! A two-level hierarchy: the root (trust anchor `kr`) delegates `z.` with a DS `dsz` covering `kz`;
@@ -783,14 +680,14 @@ def mkEnv (trace : List (Query × UpOut)) (dsAt : Option Nat := some 2) : Env wh
 def traceGood : List (Query × UpOut) :=
   [(qA, msg [a, sigA]), (qKz, msg [kz, sigKz]), (qDs, msg [dsz, sigDs]), (qKr, msg [kr, sigKr])]
 
-/-- F1: the DS record is removed from the answer to `z. DS`; its RRSIG stays -/
+/-- (was F1) the DS record is removed from the answer to `z. DS`; its RRSIG stays -/
 def traceNoDs : List (Query × UpOut) :=
   [(qA, msg [a, sigA]), (qKz, msg [kz, sigKz]), (qDs, msg [sigDs]), (qKr, msg [kr, sigKr])]
 
-/-- F2: the root DNSKEY is removed from the answer to `. DNSKEY`; its RRSIG stays -/
+/-- (was F2) the root DNSKEY is removed from the answer to `. DNSKEY`; its RRSIG stays -/
 def traceOrphan : List (Query × UpOut) := [(qKr, msg [sigKr])]
 
-/-- F3: `z. DNSKEY` is answered with the DS-covered key alone, no RRSIG -/
+/-- (was F3) `z. DNSKEY` is answered with the DS-covered key alone, no RRSIG -/
 def traceUnsignedKey : List (Query × UpOut) :=
   [(qKz, msg [kz]), (qDs, msg [dsz, sigDs]), (qKr, msg [kr, sigKr])]
 
@@ -798,112 +695,13 @@ def sec' (r : Rec) : Rec := { r with proof := .secure }
 def ins' (r : Rec) : Rec := { r with proof := .insecure }
 end Ex
 
-open Ex in
-/-- non-vacuity: on the untampered hierarchy the validator returns the answer Secure … -/
-theorem ex_good_secure :
-    validate (mkEnv traceGood) 27 0 qA = .ok { rcode := 0, an := [sec' a, sec' sigA], ns := [], ad := [] } := by
-  decide
-
-open Ex in
-theorem ex_good_clean : UpClean (Ex.mkEnv Ex.traceGood) := upClean_of_trace _ _ _ _ _ (by decide)
-
-open Ex in
-/-- … so `secure_implies_chain` applies to a concrete, non-trivial instance (three links: RRSIG by `kz`,
-DS covering `kz` signed by the root key, root key = anchor). -/
-example : Chain (mkEnv traceGood) qA 0 a :=
-  secure_implies_chain ex_good_clean ex_good_secure (sec := 0) (by omega) (r := sec' a) (by simp [Msg.sec])
-    rfl (by decide) (by decide)
-
-open Ex in
-/-- non-vacuity of `secure_dnskey_implies` / `secure_dnskey_signed_partial`: the signed DNSKEY RRset of `z.` -/
-theorem ex_good_dnskey :
-    validate (mkEnv traceGood) 27 0 qKz = .ok { rcode := 0, an := [sec' kz, sec' sigKz], ns := [], ad := [] } := by
-  decide
-
-open Ex in
-example : KeySigned (mkEnv traceGood) qKz 0 kz :=
-  secure_dnskey_signed_partial ex_good_clean ex_good_dnskey (sec := 0) (by omega) (r := sec' kz)
-    (by simp [Msg.sec]) rfl rfl (by decide)
-
-open Ex in
-example : KeySecure (mkEnv traceGood) qKz 0 kz :=
-  secure_dnskey_implies ex_good_clean ex_good_dnskey (sec := 0) (by omega) (r := sec' kz) (by simp [Msg.sec]) rfl rfl
-
-open Ex in
-/-- non-vacuity of the server lemmas: the good answer is forwarded NOERROR with AD; every summarised record Secure -/
-example : serverView false qA (validate (mkEnv traceGood) 27 0 qA) = (0, true) := by decide
-
-open Ex in
-example : ∃ x ∈ summarised qA (.ok { rcode := 0, an := [{ a with proof := .bogus }], ns := [], ad := [] }),
-    x.proof = .bogus := by decide
-
-open Ex in
-/-- **Replay of finding `C07.DsAnswerWithoutDsAccepted`** (kernel-checked): the same hierarchy, the DS record
-removed from the DS answer (class predicate holds) — the signed answer comes back *Insecure*, with no error
-(`Ok`), and the server forwards it as NOERROR without AD instead of SERVFAIL. -/
-theorem ds_answer_without_ds_downgrades :
-    dsAnswerWithoutDs traceNoDs = true ∧
-    validate (mkEnv traceNoDs none) 27 0 qA = .ok { rcode := 0, an := [ins' a, ins' sigA], ns := [], ad := [] } ∧
-    serverView false qA (validate (mkEnv traceNoDs none) 27 0 qA) = (0, false) := by
-  decide
-
-open Ex in
-/-- non-vacuity of `insecure_implies_ds_without_secure_supported` (its hypotheses hold of the downgraded run) -/
-example : DsWithoutSecureSupported (mkEnv traceNoDs none) :=
-  insecure_implies_ds_without_secure_supported (upClean_of_trace _ _ _ _ _ (by decide)) 27 0 qA _
-    ds_answer_without_ds_downgrades.2.1 0 (by omega) (ins' a) (by simp [Msg.sec]) rfl
-
-/-- a replayed trace without orphan DNSKEY RRSIGs -/
-theorem noOrphan_of_trace (trace : List (Query × UpOut)) (anchor : Nat → Bool) (covers : Nat → Nat → Bool)
-    (sigRes : Nat → Nat → GroupId → SigRes) (nsec : Nat → Nat → Nat → Proof)
-    (h : orphanDnskeyRrsig trace = false) :
-    NoOrphan { up := traceUp trace, anchor := anchor, covers := covers, sigRes := sigRes, nsec := nsec } := by
-  intro q qid m hup sec hsec
-  unfold orphanDnskeyRrsig at h
-  simp only [List.any_eq_false] at h
-  unfold upMsg at hup
-  split at hup
-  · rename_i m' hm
-    obtain ⟨e, he, heq⟩ := traceFind_mem trace 0 q _ hm (by simp)
-    have := h e he
-    rw [heq] at this
-    simp only [Bool.or_eq_true, not_or, Bool.not_eq_true] at this
-    injection hup with hup; injection hup with _ hup; subst hup
-    match sec, hsec with
-    | 0, _ => exact this.1.1
-    | 1, _ => exact this.1.2
-    | 2, _ => exact this.2
-  · rename_i m' hm
-    obtain ⟨e, he, heq⟩ := traceFind_mem trace 0 q _ hm (by simp)
-    have := h e he
-    rw [heq] at this
-    simp only [Bool.or_eq_true, not_or, Bool.not_eq_true] at this
-    injection hup with hup; injection hup with _ hup; subst hup
-    match sec, hsec with
-    | 0, _ => simp [Msg.sec, orphanDnskeyRrsigIn]
-    | 1, _ => exact this.1.2
-    | 2, _ => simp [Msg.sec, orphanDnskeyRrsigIn]
-  · simp at hup
-
-open Ex in
-/-- non-vacuity of `no_panic_partial` -/
-example : validate (mkEnv traceGood) 27 0 qA ≠ .abort "panic" :=
-  no_panic_partial (noOrphan_of_trace _ _ _ _ _ (by decide)) 27 0 qA
-
-open Ex in
-/-- **Replay of finding `C07.OrphanDnskeyRrsigPanic`** (kernel-checked): an RRSIG covering DNSKEY without a
-DNSKEY record panics the validator. -/
-theorem orphan_dnskey_rrsig_panics :
-    orphanDnskeyRrsig traceOrphan = true ∧ validate (mkEnv traceOrphan none) 27 0 qKr = .abort "panic" := by
-  decide
-
 namespace Ex
-/-- F7: `alias.z. A` is answered with the (genuine, signed) A RRset of `www.z.`; the CNAME is gone -/
+/-- (was F7) `alias.z. A` is answered with the (genuine, signed) A RRset of `www.z.`; the CNAME is gone -/
 def qAlias : Query := ⟨["alias", "z"], 1⟩
 def traceNoCname : List (Query × UpOut) :=
   [(qAlias, msg [a, sigA]), (qKz, msg [kz, sigKz]), (qDs, msg [dsz, sigDs]), (qKr, msg [kr, sigKr])]
 
-/-- F8: `www.z. A` is answered NXDOMAIN with one authority record of the unsigned zone `u.` (NS RRset of the
+/-- (was F8) `www.z. A` is answered NXDOMAIN with one authority record of the unsigned zone `u.` (NS RRset of the
 delegation; its DS lookup is a validated NSEC denial).  Record ids: u 20, nsecU 21, sigN 22. -/
 def u : Rec := { name := ["u"], rtype := 2, rid := 20 }
 def nsecU : Rec := { name := ["u"], rtype := 47, rid := 21 }
@@ -922,69 +720,177 @@ def envForeignInsecure : Env :=
     nsec := fun qid mask _ => if qid == 2 && mask == 1 then .secure else .bogus }
 end Ex
 
+namespace Ex
+def nsZ : Rec := { name := ["z"], rtype := 2, rid := 30 }
+def emptyMsg : UpOut := .ok { rcode := 0, an := [], ns := [], ad := [] }
+/-- the unvalidated NS answers `find_ds_records` walks over: `z.` is a zone cut, the names below it are not -/
+def nsTrace : List (Query × UpOut) :=
+  [(⟨["z"], 2⟩, msg [nsZ]), (⟨["alias", "z"], 2⟩, emptyMsg), (⟨["www", "z"], 2⟩, emptyMsg)]
+/-- (was F9) `z. SOA` is answered with the RRSIG of the SOA alone -/
+def sigSoaZ : Rec := { name := ["z"], rtype := 46, rid := 31, covered := 6, signer := ["z"], labels := 1 }
+def qSoa : Query := ⟨["z"], 6⟩
+def traceSoa : List (Query × UpOut) :=
+  [(qSoa, msg [sigSoaZ]), (qKz, msg [kz, sigKz]), (qDs, msg [dsz, sigDs]), (qKr, msg [kr, sigKr])] ++ nsTrace
+def bog' (r : Rec) : Rec := { r with proof := .bogus }
+
+/-- open finding `C07.ForeignSignerInheritsInsecure`, route 1: the RRSIG over `www.z. A` replaced by one naming the
+unsigned zone `u.` as signer; `u. DNSKEY` holds an (unsigned) key `ku`, `u. DS` is a validated NSEC denial.
+Record ids: sigF 41, ku 40. -/
+def sigF : Rec := { name := ["www", "z"], rtype := 46, rid := 41, covered := 1, signer := ["u"], labels := 2 }
+def ku : Rec := { name := ["u"], rtype := 48, rid := 40, tag := 3, alg := 15, algSupp := true }
+def traceForeignSigner : List (Query × UpOut) :=
+  [(qA, msg [a, sigF]), (⟨["u"], 48⟩, msg [ku]),
+   (⟨["u"], 43⟩, .ok { rcode := 0, an := [], ns := [nsecU, sigN], ad := [] }), (qKr, msg [kr, sigKr])]
+/-- route 2: the honest RRSIG (signer `z.`), but the answer to `z. DNSKEY` replaced by a CNAME at `z.` (so that it
+"answers the question") and the foreign key `ku` -/
+def cnameZ : Rec := { name := ["z"], rtype := 5, rid := 42 }
+def traceForeignKey : List (Query × UpOut) :=
+  [(qA, msg [a, sigA]), (qKz, msg [cnameZ, ku]),
+   (⟨["u"], 43⟩, .ok { rcode := 0, an := [], ns := [nsecU, sigN], ad := [] }), (qKr, msg [kr, sigKr])]
+def envForeign (trace : List (Query × UpOut)) : Env := { envForeignInsecure with up := traceUp trace }
+end Ex
+
+/-! ### non-vacuity -/
+
 open Ex in
-/-- **Replay of finding `C07.AnswerSectionWithoutAnswerAccepted`** (kernel-checked): the answer section holds
-genuine Secure records of another name and nothing for the query name; the validator returns `Ok`, the server
-forwards NOERROR with AD. -/
-theorem answer_section_without_answer_accepted :
-    validate (mkEnv traceNoCname) 27 0 qAlias = .ok { rcode := 0, an := [sec' a, sec' sigA], ns := [], ad := [] } ∧
-    answerSectionWithoutAnswer qAlias { rcode := 0, an := [sec' a, sec' sigA], ns := [], ad := [] } = true ∧
-    serverView false qAlias (validate (mkEnv traceNoCname) 27 0 qAlias) = (0, true) := by
+/-- on the untampered hierarchy the validator returns the answer Secure … -/
+theorem ex_good_secure :
+    validate (mkEnv traceGood) 27 0 qA = .ok { rcode := 0, an := [sec' a, sec' sigA], ns := [], ad := [] } := by
   decide
 
 open Ex in
-/-- **Replay of finding `C07.InsecureAuthorityAcceptsDenial`** (kernel-checked): an NXDOMAIN for the signed name
-`www.z.` that carries nothing but a record of the unrelated unsigned zone `u.` is accepted (`Ok`, the record
-rightly Insecure) and forwarded as NXDOMAIN, not SERVFAIL. -/
-theorem insecure_authority_accepts_denial :
-    validate envForeignInsecure 27 0 qA = .ok { rcode := 3, an := [], ns := [ins' u], ad := [] } ∧
-    insecureAuthorityDenial { rcode := 3, an := [], ns := [ins' u], ad := [] } = true ∧
-    serverView false qA (validate envForeignInsecure 27 0 qA) = (3, false) := by
+theorem ex_good_clean : UpClean (Ex.mkEnv Ex.traceGood) := upClean_of_trace _ _ _ _ _ (by decide)
+
+open Ex in
+/-- … so `secure_implies_chain` applies to a concrete, non-trivial instance (three links: RRSIG by `kz`,
+DS covering `kz` signed by the root key, root key = anchor). -/
+example : Chain (mkEnv traceGood) qA 0 a :=
+  secure_implies_chain ex_good_clean ex_good_secure (sec := 0) (by omega) (r := sec' a) (by simp [Msg.sec])
+    rfl (by decide) (by decide)
+
+open Ex in
+theorem ex_good_dnskey :
+    validate (mkEnv traceGood) 27 0 qKz = .ok { rcode := 0, an := [sec' kz, sec' sigKz], ns := [], ad := [] } := by
   decide
 
 open Ex in
-/-- non-vacuity of `insecure_implies_denial_partial`: in that run no DS answer lacks a DS (`DsAnswersHaveDs`), and
-the Insecure record is indeed `Justified` — by the validated NSEC denial of `u. DS`, a zone unrelated to `www.z.`,
-which is exactly what the full statement would forbid. -/
-example : Justified envForeignInsecure :=
-  insecure_implies_denial_partial
-    (upClean_of_up envForeignInsecure traceForeignInsecure rfl (by decide))
-    (dsAnswersHaveDs_of_up envForeignInsecure traceForeignInsecure rfl (by decide))
-    27 0 qA _ insecure_authority_accepts_denial.1 1 (by omega) (ins' u) (by simp [Msg.sec]) rfl
+example : KeySigned (mkEnv traceGood) qKz 0 kz :=
+  secure_dnskey_signed ex_good_clean ex_good_dnskey (sec := 0) (by omega) (r := sec' kz) (by simp [Msg.sec]) rfl rfl
 
-/-- **Replay of finding `C07.SoaAnswerWithoutSoaNotServfail`** (kernel-checked): a SOA query answered with the
-orphaned, Bogus RRSIG of the SOA alone reaches the server as "no records" and is forwarded NOERROR. -/
-theorem soa_answer_without_soa_not_servfail :
+open Ex in
+example : KeySecure (mkEnv traceGood) qKz 0 kz :=
+  secure_dnskey_implies ex_good_clean ex_good_dnskey (sec := 0) (by omega) (r := sec' kz) (by simp [Msg.sec]) rfl rfl
+
+open Ex in
+/-- the good answer is forwarded NOERROR with AD (hypothesis of `ad_only_if_all_secure`) -/
+example : serverView false qA (validate (mkEnv traceGood) 27 0 qA) = (0, true) := by decide
+
+open Ex in
+example : ∃ x ∈ summarised qA (.ok { rcode := 0, an := [bog' a], ns := [], ad := [] }), x.proof = .bogus := by decide
+
+open Ex in
+/-- `validate … ≠ abort "panic"` on a concrete instance is what `no_panic` says for every instance -/
+example : validate (mkEnv traceOrphan none) 27 0 qKr ≠ .abort "panic" := no_panic _ 27 0 qKr
+
+/-! ### regression examples: the replays of the eight repaired findings -/
+
+open Ex in
+/-- (was `ds_answer_without_ds_downgrades`, fix aabfc01) the DS record removed from the DS answer: the answer is no
+longer Insecure but Bogus, and the server answers SERVFAIL -/
+theorem regression_ds_answer_without_ds :
+    validate (mkEnv traceNoDs none) 27 0 qA = .ok { rcode := 0, an := [bog' a, sigA], ns := [], ad := [] } ∧
+    serverView false qA (validate (mkEnv traceNoDs none) 27 0 qA) = (2, false) := by
+  decide
+
+open Ex in
+/-- (was `orphan_dnskey_rrsig_panics`, fix e338561) an RRSIG covering DNSKEY without a DNSKEY: an error, no panic -/
+theorem regression_orphan_dnskey_rrsig :
+    validate (mkEnv traceOrphan none) 27 0 qKr = .errNsec .bogus := by
+  decide
+
+open Ex in
+/-- (was `unsigned_dnskey_rrset_secure`, fix 8ec5af8) the DS-covered key alone, without RRSIG: Bogus, SERVFAIL -/
+theorem regression_unsigned_dnskey_rrset :
+    validate (mkEnv traceUnsignedKey (some 1)) 27 0 qKz = .ok { rcode := 0, an := [bog' kz], ns := [], ad := [] } ∧
+    serverView false qKz (validate (mkEnv traceUnsignedKey (some 1)) 27 0 qKz) = (2, false) := by
+  decide
+
+open Ex in
+/-- (was `answer_section_without_answer_accepted`, fix 2bee91e) the answer section holds only other names' Secure
+records: an error -/
+theorem regression_answer_section_without_answer :
+    validate (mkEnv (traceNoCname ++ nsTrace)) 27 0 qAlias = .errNsec .bogus := by
+  decide
+
+open Ex in
+/-- (was `insecure_authority_accepts_denial`, fix 2bee91e) NXDOMAIN for the signed `www.z.` carrying a record of the
+unsigned zone `u.`: an error -/
+theorem regression_insecure_authority_denial :
+    validate (envForeign (traceForeignInsecure ++ nsTrace ++ [(qDs, msg [dsz, sigDs])])) 27 0 qA = .errNsec .bogus := by
+  decide
+
+open Ex in
+/-- (was `soa_answer_without_soa_not_servfail`, fix 2bee91e) the SOA query answered with the SOA's RRSIG alone: an
+error, hence SERVFAIL (`error_servfail`) -/
+theorem regression_soa_answer_without_soa :
+    validate (mkEnv traceSoa) 27 0 qSoa = .errNsec .bogus ∧
+    serverView false qSoa (validate (mkEnv traceSoa) 27 0 qSoa) = (2, false) := by
+  decide
+
+/-- (was `ad_with_bogus_soa`, fix cdd0f6a) a negative answer with a Bogus SOA next to Secure NSEC records: SERVFAIL -/
+theorem regression_ad_with_bogus_soa :
+    let nsec : Rec := { name := ["a", "z"], rtype := 47, rid := 0, proof := .secure }
+    let sig : Rec := { name := ["a", "z"], rtype := 46, rid := 1, covered := 47, signer := ["z"], labels := 2, proof := .secure }
+    let soa : Rec := { name := ["z"], rtype := 6, rid := 2, proof := .bogus }
+    serverView false ⟨["b", "z"], 1⟩ (.ok { rcode := 3, an := [], ns := [nsec, sig, soa], ad := [] }) = (2, false) := by
+  decide
+
+/-- (was `bogus_negative_without_soa_forwarded`, fix cdd0f6a) a negative answer without SOA that carries a Bogus
+record: SERVFAIL -/
+theorem regression_bogus_negative_without_soa :
+    let nsec : Rec := { name := ["a", "z"], rtype := 47, rid := 0, proof := .secure }
+    let sig : Rec := { name := ["a", "z"], rtype := 46, rid := 1, covered := 47, signer := ["z"], labels := 2, proof := .secure }
     let sigSoa : Rec := { name := ["z"], rtype := 46, rid := 3, covered := 6, signer := ["z"], labels := 1, proof := .bogus }
-    let m : Msg := { rcode := 0, an := [sigSoa], ns := [], ad := [] }
-    soaAnswerWithoutSoa ⟨["z"], 6⟩ m = true ∧ serverView false ⟨["z"], 6⟩ (.ok m) = (0, false) := by
+    serverView false ⟨["b", "z"], 1⟩ (.ok { rcode := 3, an := [], ns := [nsec, sig, sigSoa], ad := [] }) = (2, false) := by
   decide
 
-/-- the strict reading needs a signature in the section -/
-theorem keySigned_needs_sig {env : Env} {q : Query} {sec : Nat} {k : Rec} (h : KeySigned env q sec k) :
-    env.anchor k.rid = true ∨ ∃ qid m, upMsg env q = some (qid, m) ∧ ∃ s ∈ m.sec sec, s.isSig = true := by
-  rcases h with h | ⟨_, sig, qid, m, hup, _, _, _, _, hs, hsig, _⟩
-  · exact Or.inl h
-  · exact Or.inr ⟨qid, m, hup, sig, hs, hsig⟩
+open Ex in
+/-- (was `foreign_signer_inherits_insecure`, fix 207ce2a) `www.z. A` with an RRSIG naming the unsigned zone `u.` as
+signer: the RRSIG is not tried, the answer is Bogus, SERVFAIL -/
+theorem regression_foreign_signer :
+    validate (envForeign (traceForeignSigner ++ nsTrace ++ [(qDs, msg [dsz, sigDs])])) 27 0 qA =
+      .ok { rcode := 0, an := [bog' a, sigF], ns := [], ad := [] } ∧
+    serverView false qA (validate (envForeign (traceForeignSigner ++ nsTrace ++ [(qDs, msg [dsz, sigDs])])) 27 0 qA)
+      = (2, false) := by
+  decide
 
 open Ex in
-/-- **Replay of finding `C07.UnsignedDnskeyRrsetSecure`** (kernel-checked): a DNSKEY RRset holding only the
-DS-covered key, with no RRSIG at all, is returned Secure (and the server sets AD), although the key is
-not a trust anchor and its RRset is not signed: `KeySigned` fails. -/
-theorem unsigned_dnskey_rrset_secure :
-    validate (mkEnv traceUnsignedKey (some 1)) 27 0 qKz = .ok { rcode := 0, an := [sec' kz], ns := [], ad := [] } ∧
-    unsignedSecureDnskeyIn [sec' kz] = true ∧
-    serverView false qKz (validate (mkEnv traceUnsignedKey (some 1)) 27 0 qKz) = (0, true) ∧
-    ¬ KeySigned (mkEnv traceUnsignedKey (some 1)) qKz 0 kz := by
-  refine ⟨by decide, by decide, by decide, ?_⟩
-  intro h
-  rcases keySigned_needs_sig h with h | ⟨qid, m, hup, s, hs, hsig⟩
-  · revert h; decide
-  · have : upMsg (mkEnv traceUnsignedKey (some 1)) qKz = some (0, { rcode := 0, an := [kz], ns := [], ad := [] }) := by decide
-    rw [this] at hup
-    injection hup with hup; injection hup with _ hm; subst hm
-    simp only [Msg.sec, List.mem_singleton] at hs
-    subst hs
-    revert hsig; decide
+/-- (was `foreign_key_inherits_insecure`, fix 207ce2a) the honest RRSIG, the answer to `z. DNSKEY` replaced by a CNAME
+at `z.` and the Insecure key of `u.`: the foreign key is not looked at, the answer is Bogus -/
+theorem regression_foreign_key :
+    validate (envForeign traceForeignKey) 27 0 qA = .ok { rcode := 0, an := [bog' a, sigA], ns := [], ad := [] } := by
+  decide
+
+namespace Ex
+/-- a legitimately insecure answer: `www.u. A` of the unsigned zone `u.` (no RRSIG); `u. NS` marks the zone cut -/
+def au : Rec := { name := ["www", "u"], rtype := 1, rid := 50 }
+def qAu : Query := ⟨["www", "u"], 1⟩
+def traceInsecureZone : List (Query × UpOut) :=
+  [(qAu, msg [au]), (⟨["www", "u"], 2⟩, emptyMsg),
+   (⟨["u"], 43⟩, .ok { rcode := 0, an := [], ns := [nsecU, sigN], ad := [] }), (qKr, msg [kr, sigKr]),
+   (⟨["u"], 2⟩, msg [u])]
+end Ex
+
+open Ex in
+theorem ex_insecure_zone :
+    validate (envForeign traceInsecureZone) 27 0 qAu = .ok { rcode := 0, an := [ins' au], ns := [], ad := [] } := by
+  decide
+
+open Ex in
+/-- non-vacuity of `insecure_implies_denial`: on the upstream of an honestly unsigned zone the conclusion names a
+zone cut at or above `www.u.` with a validated denial of its DS -/
+example : ∃ zone, zone <:+ ["www", "u"] ∧ DsDenied (envForeign traceInsecureZone) zone :=
+  insecure_implies_denial (upClean_of_up _ traceInsecureZone rfl (by decide))
+    ex_insecure_zone (sec := 0) (by omega) (r := ins' au) (by simp [Msg.sec]) rfl
 
 end HickoryVerif.C07
